@@ -24,7 +24,9 @@ RULE = (
     "complete product of (loss function/module x options x shape x deterministic image pair x mask form x edge), "
     "edge = input transformation whose two end evaluations must satisfy the axiom (identity, range, swap symmetry, "
     "intensity affine map, edit outside mask, masked mean, rectangular-mask == crop, mask broadcast form, norm, "
-    "reduction, Dice/Tversky identities, module == functional); distinct = (sub-check, loss, options, shape, images, "
+    "reduction, Dice/Tversky identities, module == functional, and - for every subset of the optional mask / weight "
+    "arguments x mask dtype form (bool, uint8, float32 0/1, float32 soft, float64) - dtype independence, the documented "
+    "implicit masks of wlcc_loss, edits outside the effective mask, reductions over the effective mask); distinct = (sub-check, loss, options, shape, images, "
     "mask, edge); non-trivial = the edge changed the input bytes (or the option changes the value) and all compared "
     "values are finite"
 )
@@ -40,7 +42,7 @@ MIN_NONTRIVIAL = {"quick": 14000, "thorough": 75000}
 MIN_OUTCOMES = {"quick": 4500, "thorough": 25000}
 MIN_SUB_TRACES = {
     "identity": 100, "range": 50, "symmetry": 100, "affine": 200, "mask-outside": 100, "mask-mean": 100,
-    "mask-roi": 30, "mask-shape": 100, "norm": 100, "reduction": 100, "overlap": 50, "module": 100,
+    "mask-roi": 30, "mask-shape": 100, "norm": 100, "reduction": 100, "overlap": 50, "module": 100, "mask-args": 500,
 }
 
 EPS32 = 2.0 ** -23
@@ -48,7 +50,7 @@ C = 64.0
 SEED_SAMPLING = 20240
 
 SUBS = ("identity", "range", "symmetry", "affine", "mask-outside", "mask-mean", "mask-roi", "mask-shape", "norm",
-        "reduction", "overlap", "module")
+        "reduction", "overlap", "module", "mask-args")
 
 
 # ---------------------------------------------------------------------------
@@ -1344,6 +1346,194 @@ def judge_module(case, res):
     cmp(res, form, "module!=functional", got, want, tol, f"{cls}({', '.join(f'{k}={v}' for k, v in case['opts'].items())}) vs {fn}({', '.join(f'{k}={v}' for k, v in fo.items())}{', norm=%g' % want_norm if want_norm else ''})")
 
 
+
+# ---------------------------------------------------------------------------
+# sub-check: every subset of the optional mask / weight arguments x every mask dtype form
+MASK_ARG_NAMES = {"wlcc_loss": ("mask", "source_mask", "target_mask")}
+MASK_ARG_PATTERN = {"mask": "half", "weight": "half", "source_mask": "bands", "target_mask": "b1"}
+MASK_DFORMS = ("bool", "uint8", "f32", "f32soft", "f64")
+MODULE_OF = {
+    "wlcc_loss": "WLCC", "lcc_loss": "LCC", "ncc_loss": "NCC", "mse_loss": "L2ImageLoss", "ssd_loss": "SSD", "mae_loss": "L1ImageLoss",
+    "huber_loss": "HuberImageLoss", "smooth_l1_loss": "SmoothL1ImageLoss", "mi_loss": "MI", "nmi_loss": "NMI", "dice_loss": "Dice",
+}
+
+
+def mask_arg_names(fn):
+    return MASK_ARG_NAMES.get(fn, (mask_kw(fn),))
+
+
+def mask_args_losses(tier, shape):
+    D = len(shape) - 2
+    k = kernels(tier, D, shape)[:1 if tier == "quick" else 2]
+    fns = [("wlcc_loss", {"kernel_size": q}) for q in k] + [("lcc_loss", {"kernel_size": q}) for q in k] + [("ncc_loss", {})]
+    fns += [("mse_loss", {}), ("ssd_loss", {}), ("mae_loss", {}), ("huber_loss", {"delta": 0.25}), ("smooth_l1_loss", {"beta": 0.25})]
+    fns += [("dice_score", {}), ("dice_loss", {}), ("tversky_index", {"alpha": 0.3, "beta": 0.7}), ("tversky_loss", {})]
+    if shape[1] == 1:
+        fns += [("mi_loss", {"num_bins": 16}), ("nmi_loss", {"num_bins": 16})]
+    return fns
+
+
+def cases_mask_args(tier, shape, pair, tab):
+    out = []
+    for fn, kw in mask_args_losses(tier, shape):
+        seg = fn.startswith(("dice", "tversky"))
+        imgs = list(seg_pairs(tier)[0]) if seg else list(pair)
+        names = mask_arg_names(fn)
+        subsets = [list(c) for r in range(1, len(names) + 1) for c in itertools.combinations(names, r)]
+        reds = ("none", "mean", "sum") if HAS_REDUCTION(fn) else (None,)
+        for sub_ in subsets:
+            for df in MASK_DFORMS:
+                for red in reds:
+                    out.append({"sub": "mask-args", "fn": fn, "kw": kw, "shape": list(shape), "imgs": imgs, "tab": tab, "args": sub_, "dform": df, "red": red, "via": "function"})
+                if fn in MODULE_OF:
+                    out.append({"sub": "mask-args", "fn": fn, "kw": kw, "shape": list(shape), "imgs": imgs, "tab": tab, "args": sub_, "dform": df, "red": None, "via": "module"})
+    return out
+
+
+def mask_arg_array(arg, shape, soft):
+    """float64 array of the 0/1 (or, soft: {0, .5, 1}) pattern of one mask argument; the zero set is the same."""
+    m = np_mask(MASK_ARG_PATTERN[arg], shape).astype(np.float64)
+    if soft:
+        idx = np.indices(m.shape[2:]).sum(axis=0) % 2
+        m = m * (0.5 + 0.5 * idx)
+    return m
+
+
+def mask_arg_tensor(a, dform):
+    dt = {"bool": torch.bool, "uint8": torch.uint8, "f32": torch.float32, "f32soft": torch.float32, "f64": torch.float64}[dform]
+    return T(a, dt)
+
+
+def judge_mask_args(case, res):
+    fn, kw0, shape, args, df, red = case["fn"], case["kw"], case["shape"], case["args"], case["dform"], case["red"]
+    x, y = xy(case)
+    soft = df == "f32soft"
+    arr = {a: mask_arg_array(a, shape, soft) for a in args}
+    form = f"{label_of(fn, kw0)}/args={'+'.join(args)}/dtype={df}/{case['via']}"
+    base = dict(kw0)
+    if fn in ("mi_loss", "nmi_loss"):
+        base = mi_range(base, x, y)
+
+    def kwargs(arrays, dform, reduction):
+        k = dict(base)
+        for a, v in arrays.items():
+            k[a] = mask_arg_tensor(v, dform)
+        if reduction:
+            k["reduction"] = reduction
+        return k
+
+    # effective mask of the aggregation (documented): mask, else source_mask * target_mask when both are given
+    eff = None
+    if fn == "wlcc_loss":
+        if "mask" in arr:
+            eff = arr["mask"]
+        elif "source_mask" in arr and "target_mask" in arr:
+            eff = arr["source_mask"] * arr["target_mask"]
+    elif args:
+        eff = arr[args[0]]
+    wl = {"source": arr.get("source_mask", arr.get("mask") if len(args) == 1 else None), "target": arr.get("target_mask", arr.get("mask") if len(args) == 1 else None)} if fn == "wlcc_loss" else {"source": eff, "target": eff}
+    if fn == "lcc_loss":
+        wl = {"source": None, "target": None}  # unweighted local windows overlap the mask border: no such invariance
+    if is_corr(fn):
+        k_ = kw0.get("kernel_size", 7)
+        cands_x = [w_ for w_ in (wl["source"], eff) if w_ is not None] or [None]
+        cands_y = [w_ for w_ in (wl["target"], eff) if w_ is not None] or [None]
+        if fn == "ncc_loss":
+            cond = 1.0 + ld.global_cond(x, eff) + ld.global_cond(y, eff)
+        else:
+            cond = 1.0 + max(ld.local_cond(x, k_, w_) for w_ in cands_x) + max(ld.local_cond(y, k_, w_) for w_ in cands_y)
+        if not cond < 1e3:
+            res.undef.append("ill-conditioned")
+            return
+        tol0 = C * EPS32 * cond
+    else:
+        tol0 = None
+
+    def tol_for(ref):
+        return tol0 * (float(np.prod(shape)) if red == "sum" else 1.0) if tol0 is not None else C * EPS32 * scale_of(ref) * 4
+
+    if case["via"] == "module":
+        import deepali.losses as LL
+
+        ctor = {k: (tuple(v) if isinstance(v, list) else v) for k, v in kw0.items() if k not in ("vmin", "vmax")}
+        if "num_bins" in ctor:
+            ctor["bins"] = ctor.pop("num_bins")
+        if fn in ("mi_loss", "nmi_loss"):
+            ctor["vmin"], ctor["vmax"] = base["vmin"], base["vmax"]
+        res.trans += 1
+        st, mod = guarded(lambda: getattr(LL, MODULE_OF[fn])(**ctor))
+        if st == "raises":
+            res.bad(f"{form}/ctor-{raise_sig(mod)}", exc_text(mod))
+            return
+        mkw = {("mask" if a == "weight" else a): mask_arg_tensor(v, df) for a, v in arr.items()}
+        res.trans += 1
+        st, v = guarded(mod, T(x), T(y), **mkw)
+        want = ev(res, fn, x, y, kwargs(arr, df, None), form, "functional form, default reduction")
+        if want is None:
+            return
+        if st == "raises":
+            res.bad(f"{form}/{raise_sig(v)}", f"{MODULE_OF[fn]} forward: " + exc_text(v))
+            return
+        res.nontriv = True
+        res.out.append(tensor_bytes(v))
+        cmp(res, form, "module!=functional", f64(v), want, tol_for(want), f"{MODULE_OF[fn]}(...)(x, y, {', '.join(mkw)}) vs {fn}")
+        return
+
+    got = ev(res, fn, x, y, kwargs(arr, df, red), form, f"reduction={red}")
+    if got is None:
+        return
+    res.nontriv = True
+    # R1: the dtype of a 0/1 mask does not matter
+    if df in ("bool", "uint8", "f64"):
+        ref = ev(res, fn, x, y, kwargs(arr, "f32", red), form, "same masks as float32")
+        if ref is not None:
+            cmp(res, form, f"mask-dtype-changes-value/reduction={red}", got, ref, tol_for(ref), f"{df} masks vs the same 0/1 masks as float32")
+    # R2: documented fall-backs of wlcc_loss
+    if fn == "wlcc_loss" and sorted(args) == ["source_mask", "target_mask"]:
+        full = dict(arr)
+        full["mask"] = np.float32(arr["source_mask"] * arr["target_mask"]).astype(np.float64)
+        ref = ev(res, fn, x, y, kwargs(full, "f32" if df != "f32soft" else "f32soft", red), form, "explicit mask = source_mask * target_mask")
+        if ref is not None:
+            cmp(res, form, f"implicit-product-mask/reduction={red}", got, ref, tol_for(ref), "mask omitted vs mask = source_mask * target_mask given explicitly")
+    if fn == "wlcc_loss" and args == ["mask"]:
+        full = {"mask": arr["mask"], "source_mask": arr["mask"], "target_mask": arr["mask"]}
+        ref = ev(res, fn, x, y, kwargs(full, "f32" if df != "f32soft" else "f32soft", red), form, "mask also given as source_mask and target_mask")
+        if ref is not None:
+            cmp(res, form, f"mask-as-source-and-target-mask/reduction={red}", got, ref, tol_for(ref), "mask alone vs mask = source_mask = target_mask")
+    # R3: samples outside the effective mask (and outside the weights of the local mean of that image) do not matter
+    if eff is not None and df in ("bool", "f32", "f32soft"):
+        seg = fn.startswith(("dice", "tversky"))
+        zs = None if wl["source"] is None else (np.broadcast_to(eff, shape) == 0) & (np.broadcast_to(wl["source"], shape) == 0)
+        zt = None if wl["target"] is None else (np.broadcast_to(eff, shape) == 0) & (np.broadcast_to(wl["target"], shape) == 0)
+        x2 = x if zs is None else edit_outside(x, (~zs).astype(np.float64), seg, 0)
+        y2 = y if zt is None else edit_outside(y, (~zt).astype(np.float64), seg, 1)
+        if not (np.array_equal(x, x2) and np.array_equal(y, y2)):
+            ref = ev(res, fn, x2, y2, kwargs(arr, df, red), form, "values edited where all weights are zero")
+            if ref is not None:
+                cmp(res, form, f"depends-on-masked-out-samples/reduction={red}", ref, got, tol_for(got), "edit of samples whose mask and local-mean weights are zero")
+    # R4: 'mean' / 'sum' are the mean / sum of 'none' over the effective mask; 'none' vanishes outside it
+    if red is not None:
+        none = got if red == "none" else ev(res, fn, x, y, kwargs(arr, df, "none"), form, "reduction=none")
+        if none is None:
+            return
+        windowed_or_pointwise = not fn.startswith(("dice", "tversky")) and fn != "ncc_loss"
+        if windowed_or_pointwise and none.shape != tuple(shape):
+            res.bad(f"{form}/none-shape", f"'none' output shape {none.shape}, expected {tuple(shape)}")
+            return
+        if red == "none":
+            if windowed_or_pointwise and eff is not None:
+                e = np.broadcast_to(eff, none.shape)
+                off = float(np.abs(none[e == 0]).max()) if (e == 0).any() else 0.0
+                if off > 0:
+                    res.bad(f"{form}/none-nonzero-outside-effective-mask", f"'none' output is {off:.3g} where the effective mask is zero")
+        else:
+            s_, sa = none.sum(), max(np.abs(none).sum(), 1e-30)
+            if red == "sum":
+                cmp(res, form, "sum!=sum-of-none", got, s_, C * EPS32 * sa, "'sum' vs sum of 'none'")
+            else:
+                den = float(np.broadcast_to(eff, none.shape).sum()) if (windowed_or_pointwise and eff is not None) else float(none.size)
+                cmp(res, form, "mean!=mean-of-none-over-effective-mask", got, s_ / den, C * EPS32 * sa / den, "'mean' vs sum of 'none' / sum of the effective mask")
+
 # ---------------------------------------------------------------------------
 CASES = {
     "identity": (cases_identity, judge_identity),
@@ -1358,6 +1548,7 @@ CASES = {
     "reduction": (cases_reduction, judge_reduction),
     "overlap": (cases_overlap, judge_overlap),
     "module": (cases_module, judge_module),
+    "mask-args": (cases_mask_args, judge_mask_args),
 }
 
 
@@ -1380,6 +1571,8 @@ def bounds(tier):
         "image_pairs": [list(p) for p in pairs(tier)],
         "segmentation_pairs": [list(p) for p in seg_pairs(tier)],
         "mask_kinds": list(ld.MASK_KINDS),
+        "mask_argument_subsets": {"wlcc_loss": 7, "every other loss": 1},
+        "mask_dtype_forms": list(MASK_DFORMS),
         "kernel_sizes": kernels(tier, 2),
         "bins": bins(tier),
         "affine_a": list(AFF_A) + ([-0.5, 7.0] if tier == "thorough" else []),
